@@ -82,9 +82,12 @@ def run(ctx, replay=None):
     ns = min(16, len(jobs))
     parts = [jobs[i::ns] for i in range(ns)]
     paths = [os.path.join(d, f'rays_{i:02d}.ndjson') for i in range(ns)]
+    ctx.log(f'{len(jobs)} ray jobs')
     with mp.Pool(ns) as pool:
         counts = pool.map(_worker, list(zip(paths, parts)))
+    ctx.log('rays computed')
     results = run_many([dict(module='Trace_Rays', env={'TRACE_FILE': p}, workers=1, timeout=3000) for p in paths], parallel=16)
+    ctx.log('rays validated')
     n_rec = sum(c[0] for c in counts)
     n_rays = sum(c[1] for c in counts)
     done = 0
@@ -120,6 +123,7 @@ def run(ctx, replay=None):
                         ctx.violation(f'unobstructed raytracing view {h}x{w} from ({y},{x}) hides a cell',
                                       {'kind': 'unobstructed', 'shape': [h, w], 'origin': [y, x]})
     ctx.add_part('unobstructed views', views=n_un)
+    ctx.log('unobstructed views done')
     # cache histories: behaviours of GVCache replayed on the real cached function
     keys = []
     for h in range(2, 7):
@@ -132,9 +136,10 @@ def run(ctx, replay=None):
     keys = keys[:150]
     behs_small, res1 = cachereplay.model_behaviours(ctx.work, cap=2, nkeys=3, depth=6)
     ctx.add_tlc(res1, 'GVCache exhaustive (cap 2, 3 keys, depth 6)')
-    depth = 200 if ctx.quick else 2000
+    depth = 160 if ctx.quick else 2000
     behs_big, res2 = cachereplay.model_behaviours(ctx.work, cap=128, nkeys=150, depth=depth, num=2 if ctx.quick else 6, seed=ctx.seed + 1)
     ctx.add_tlc(res2, f'GVCache simulation (cap 128, 150 keys, depth {depth})')
+    ctx.log('cache behaviours generated')
     # a history with guaranteed evictions: sweep all keys twice, then random
     sweep = [(k, False) for k in range(1, 151)] + [(k, False) for k in range(1, 151)]
     n1, mm1 = cachereplay.replay(rt.cached_compute_rays_fancy, rt.compute_rays_fancy, lambda k: keys[k - 1], behs_big + [sweep])
